@@ -349,6 +349,7 @@ class C49(Check):
         res = ShardResult()
         if not jitlab.shard_enabled(shard):
             res.dropped["shard-not-selected(VERIF_ONLY_SHARDS)"] += 1
+            res.exhaustive["all-shards-run"] = False
             return res
         cases = product(tier)
         # all cases of one (arch, instruction, position) program go to the same shard: its translated blocks are
